@@ -20,6 +20,50 @@ pub struct HiddenCase {
     /// executed before the bar is removed (way 3 only; the bar is a visible member then)
     pre: Vec<BOp>,
     ops: Vec<BOp>,
+    /// afterwards both twins drive an adaptor to its end: (kind, items, finish behaviour);
+    /// kind 0 wrap_iter forwards, 1 wrap_iter from the back, 2 wrap_stream (futures), 3 wrap_read
+    #[serde(default)]
+    adaptor: Option<(u8, u8, u8)>,
+}
+
+/// a stream of `n` ready items
+struct Ready(u8);
+impl futures_core::Stream for Ready {
+    type Item = u8;
+    fn poll_next(mut self: std::pin::Pin<&mut Self>, _: &mut std::task::Context<'_>) -> std::task::Poll<Option<u8>> {
+        if self.0 == 0 {
+            std::task::Poll::Ready(None)
+        } else {
+            self.0 -= 1;
+            std::task::Poll::Ready(Some(self.0))
+        }
+    }
+}
+
+fn drive_adaptor(pb: &ProgressBar, kind: u8, n: u8, k: u8) {
+    use futures_core::Stream;
+    let pb = pb.clone().with_finish(crate::multi::finish_of(k));
+    match kind % 4 {
+        0 => assert_eq!(pb.wrap_iter(0..n).count(), n as usize),
+        1 => assert_eq!(pb.wrap_iter(0..n).rev().count(), n as usize),
+        2 => {
+            let mut st = Box::pin(pb.wrap_stream(Ready(n)));
+            let waker = std::task::Waker::noop();
+            let mut cx = std::task::Context::from_waker(&waker);
+            let mut got = 0;
+            while let std::task::Poll::Ready(Some(_)) = st.as_mut().poll_next(&mut cx) {
+                got += 1;
+            }
+            assert_eq!(got, n as usize);
+        }
+        _ => {
+            use std::io::Read;
+            let data = vec![7u8; n as usize];
+            let mut out = vec![];
+            pb.wrap_read(&data[..]).read_to_end(&mut out).unwrap();
+            assert_eq!(out.len(), n as usize);
+        }
+    }
 }
 
 fn memfd() -> std::fs::File {
@@ -63,7 +107,8 @@ fn run_hidden(c: &HiddenCase) -> CaseResult {
     let file = memfd();
     let file_probe = file.try_clone().map_err(|e| Fail::new("harness", e.to_string()))?;
     let mut keep_mp: Option<MultiProgress> = None;
-    let hid = match c.way % 4 {
+    let mut keep_old: Option<MultiProgress> = None;
+    let hid = match c.way % 5 {
         0 => ProgressBar::with_draw_target(c.len, ProgressDrawTarget::hidden()),
         1 => {
             let term = console::Term::read_write_pair(file.try_clone().unwrap(), file);
@@ -75,6 +120,16 @@ fn run_hidden(c: &HiddenCase) -> CaseResult {
             keep_mp = Some(mp);
             pb
         }
+        4 => {
+            // a member of a visible MultiProgress that is then added to a hidden one (it moves there)
+            let old = MultiProgress::with_draw_target(ProgressDrawTarget::term_like(spy.boxed()));
+            let pb = old.add(ProgressBar::with_draw_target(c.len, ProgressDrawTarget::hidden()));
+            let mp = MultiProgress::with_draw_target(ProgressDrawTarget::hidden());
+            let pb = if c.len.map_or(false, |l| l % 2 == 0) { mp.add(pb) } else { mp.insert(0, pb) };
+            keep_old = Some(old);
+            keep_mp = Some(mp);
+            pb
+        }
         _ => {
             let mp = MultiProgress::with_draw_target(ProgressDrawTarget::term_like(spy.boxed()));
             let pb = mp.add(ProgressBar::with_draw_target(c.len, ProgressDrawTarget::hidden()));
@@ -83,10 +138,10 @@ fn run_hidden(c: &HiddenCase) -> CaseResult {
         }
     };
     hid.set_style(style());
-    ensure!(c.way % 4 == 3 || hid.is_hidden(), "not_hidden", "is_hidden() is false for hidden way {}", c.way % 4);
+    ensure!(c.way % 5 == 3 || hid.is_hidden(), "not_hidden", "is_hidden() is false for hidden way {}", c.way % 5);
     let mut v = Verdict::default();
     let all: Vec<(bool, &BOp)> = c.pre.iter().map(|o| (true, o)).chain(c.ops.iter().map(|o| (false, o))).collect();
-    let mut removed = c.way % 4 != 3;
+    let mut removed = c.way % 5 != 3;
     let mut state_change = false;
     let mut forced = false;
     for (i, (is_pre, op)) in all.iter().enumerate() {
@@ -96,35 +151,53 @@ fn run_hidden(c: &HiddenCase) -> CaseResult {
             }
             removed = true;
         }
-        if *is_pre && c.way % 4 != 3 {
+        if *is_pre && c.way % 5 != 3 {
             continue;
         }
         clock::advance(Duration::from_millis(3));
         let calls_before = spy.ncalls();
         catch(|| exec_quiet(&vis, op)).map_err(|p| Fail::new("panic", format!("visible twin: op #{i} {op:?} panicked: {p}")))?;
-        catch(|| exec_quiet(&hid, op)).map_err(|p| Fail::new("panic", format!("hidden bar (way {}): op #{i} {op:?} panicked: {p}", c.way % 4)))?;
+        catch(|| exec_quiet(&hid, op)).map_err(|p| Fail::new("panic", format!("hidden bar (way {}): op #{i} {op:?} panicked: {p}", c.way % 5)))?;
         if removed {
             let n = spy.ncalls() - calls_before;
-            ensure!(n == 0, "not_silent", "hidden way {}: op #{i} {op:?} on the bar made {n} terminal call(s) (ops {:?} after pre {:?})", c.way % 4, &c.ops, &c.pre);
+            ensure!(n == 0, "not_silent", "hidden way {}: op #{i} {op:?} on the bar made {n} terminal call(s) (ops {:?} after pre {:?})", c.way % 5, &c.ops, &c.pre);
         }
         let (a, b) = (snap(&vis), snap(&hid));
-        ensure!(a == b, "state_diverged", "hidden way {}: after op #{i} {op:?}: (position, length, message, prefix, finished, elapsed, eta, per_sec bits) = {b:?}, the visible twin has {a:?}", c.way % 4);
+        ensure!(a == b, "state_diverged", "hidden way {}: after op #{i} {op:?}: (position, length, message, prefix, finished, elapsed, eta, per_sec bits) = {b:?}, the visible twin has {a:?}", c.way % 5);
         state_change |= matches!(op, BOp::Inc(_) | BOp::SetPos(_) | BOp::SetMessage(_) | BOp::SetLength(_) | BOp::Reset);
         forced |= matches!(op, BOp::Println(_) | BOp::Suspend(_) | BOp::SetTabWidth(_) | BOp::Finish | BOp::FinishWithMessage(_) | BOp::FinishAndClear | BOp::Abandon | BOp::AbandonWithMessage(_));
     }
+    if let Some((kind, n, k)) = c.adaptor {
+        if !removed {
+            if let Some(mp) = &keep_mp {
+                mp.remove(&hid);
+            }
+        }
+        clock::advance(Duration::from_millis(3));
+        let calls_before = spy.ncalls();
+        catch(|| drive_adaptor(&vis, kind, n, k)).map_err(|p| Fail::new("panic", format!("visible twin: adaptor {kind} panicked: {p}")))?;
+        catch(|| drive_adaptor(&hid, kind, n, k)).map_err(|p| Fail::new("panic", format!("hidden bar (way {}): adaptor {kind} panicked: {p}", c.way % 5)))?;
+        let n_calls = spy.ncalls() - calls_before;
+        let what = ["wrap_iter", "wrap_iter(..).rev()", "wrap_stream", "wrap_read"][(kind % 4) as usize];
+        ensure!(n_calls == 0, "not_silent", "hidden way {}: driving {what} over {n} items made {n_calls} terminal call(s)", c.way % 5);
+        let (a, b) = (snap(&vis), snap(&hid));
+        ensure!(a == b, "state_diverged", "hidden way {}: after {what} over {n} items with finish behaviour {k} ended (ops {:?}): (position, length, message, prefix, finished, elapsed, eta, per_sec bits) = {b:?}, the visible twin has {a:?}", c.way % 5, c.ops);
+        v.label("adaptor_driven_to_its_end");
+    }
     drop(hid);
     drop(keep_mp);
-    if c.way % 4 == 1 {
+    drop(keep_old);
+    if c.way % 5 == 1 {
         let len = file_probe.metadata().map(|m| m.len()).unwrap_or(0);
         ensure!(len == 0, "not_silent", "Term that is not a tty: {len} bytes were written to it (ops {:?})", c.ops);
     }
-    if c.way % 4 == 3 && removed {
+    if c.way % 5 == 3 && removed {
         // dropping a removed bar is silent too (checked through the spy's counter during ops; the drop itself:)
     }
     v.nontrivial = state_change && forced;
-    v.label(["way_hidden_target", "way_not_a_tty", "way_hidden_multi", "way_removed_from_multi"][(c.way % 4) as usize]);
+    v.label(["way_hidden_target", "way_not_a_tty", "way_hidden_multi", "way_removed_from_multi", "way_moved_from_visible_to_hidden_multi"][(c.way % 5) as usize]);
     v.label_if(state_change && forced, "state_change_and_forced_draw");
-    v.label_if(c.way % 4 == 3 && c.pre.iter().any(|o| matches!(o, BOp::Finish | BOp::Abandon | BOp::FinishWithMessage(_))), "finished_before_removal");
+    v.label_if(c.way % 5 == 3 && c.pre.iter().any(|o| matches!(o, BOp::Finish | BOp::Abandon | BOp::FinishWithMessage(_))), "finished_before_removal");
     Ok(v)
 }
 
@@ -132,8 +205,8 @@ fn case_strategy(tier: Tier) -> BoxedStrategy<HiddenCase> {
     let n = tier.pick(20, 40);
     let tab_msg = prop_oneof![Just(BOp::SetMessage("a\tb".into())), Just(BOp::SetPrefix("\tp".into())), (0u8..12).prop_map(BOp::SetTabWidth)];
     let op = prop_oneof![8 => c01::bop_strategy(20), 2 => tab_msg];
-    (0u8..4, proptest::option::weighted(0.8, 0u64..100), proptest::collection::vec(op.clone(), 0..6), proptest::collection::vec(op, 0..n))
-        .prop_map(|(way, len, pre, ops)| HiddenCase { way, len, pre, ops })
+    (0u8..5, proptest::option::weighted(0.8, 0u64..100), proptest::collection::vec(op.clone(), 0..6), proptest::collection::vec(op, 0..n), proptest::option::weighted(0.4, (0u8..4, 0u8..8, 0u8..5)))
+        .prop_map(|(way, len, pre, ops, adaptor)| HiddenCase { way, len, pre, ops, adaptor })
         .boxed()
 }
 
@@ -154,7 +227,7 @@ pub fn property() -> Property {
             cases: |t| t.pick(5_000, 800_000),
             run: run_hidden,
             signature: no_signature,
-            essential: &["way_hidden_target", "way_not_a_tty", "way_hidden_multi", "way_removed_from_multi", "state_change_and_forced_draw", "finished_before_removal"],
+            essential: &["way_hidden_target", "way_not_a_tty", "way_hidden_multi", "way_removed_from_multi", "way_moved_from_visible_to_hidden_multi", "state_change_and_forced_draw", "finished_before_removal", "adaptor_driven_to_its_end"],
             workers: w,
             decode: None,
         })],
